@@ -330,7 +330,22 @@ def _md_inv(ctx, st, k):
         out.append(("new-output-arrays-start-as-no-data-with-one-entry-per-vertex-or-cell", z3.And(*new_ok) if new_ok else True))
         frozen = [p for kind, p in ctx.path.events if kind == "mutate" and p.get("frozen")]
         out.append(("inputs-left-unchanged", not frozen))
+        # representation invariant of the label table: data are kept apart per name, type and association
+        keyed = True
+        for key, holder in st["data_dict"].items.items():
+            if not (isinstance(key, tuple) and len(key) == 3 and isinstance(holder, AbsObj)):
+                keyed = False
+                continue
+            nm = to_z3(holder.attrs["name"])
+            keyed = keyed and _mentions(to_z3(key[0]), nm) and z3.eq(to_z3(key[1]), to_z3(ctx.env["type_name"])) and key[2] in ("VERTEX", "CELL")
+        out.append(("merged-data-are-kept-apart-per-name-type-and-association", keyed))
     return out
+
+
+def _mentions(term, sub):
+    if z3.eq(term, sub):
+        return True
+    return any(_mentions(c, sub) for c in term.children())
 
 
 def _md_havoc(ctx, st, k):
@@ -357,7 +372,7 @@ class MergeData(Contract):
     loops = {1: LoopSpec(_md_inv, _md_havoc, "for-input")}
     has_native = True
     max_paths = 20000
-    bounded_scope = "2-3 point clouds / curves with 0-2 float data each (names shared or not, vertex or cell association, inputs without data in any position); deductive part: any number of inputs, each with 0-2 children, label table abstracted to 0-1 earlier label"
+    bounded_scope = "2-3 point clouds / curves with 0-2 float data each (names shared or not, entity types shared between differently named data or not, vertex or cell association, inputs without data in any position); deductive part: any number of inputs, each with 0-2 children, label table abstracted to 0-1 earlier label"
 
     def setup(self, ctx):
         ctx.env["ndv"] = sym("nan_value", "real")
@@ -372,7 +387,8 @@ class MergeData(Contract):
         ctx.oblige("returns-after-all-inputs", True)
 
     def native_cases(self, tier, rng):
-        opts = [[], [("a", "VERTEX")], [("a", "VERTEX"), ("b", "VERTEX")], [("b", "VERTEX")], [("a", "CELL")], [("a", "VERTEX"), ("c", "CELL")]]
+        opts = [[], [("a", "VERTEX")], [("a", "VERTEX"), ("b", "VERTEX")], [("b", "VERTEX")], [("a", "CELL")], [("a", "VERTEX"), ("c", "CELL")],
+                [("a", "VERTEX"), ("b", "VERTEX", "a")], [("b", "VERTEX", "a")]]  # third entry: the data shares the entity type of that other data
         for combo in itertools.product(range(len(opts)), repeat=2):
             yield {"inputs": [opts[i] for i in combo], "nv": [2, 3]}
         sub = [0, 1, 3, 4]
@@ -385,18 +401,20 @@ class MergeData(Contract):
         from geoh5py.workspace import Workspace
 
         with Workspace() as ws:
-            objs, expected = [], {}
+            objs, expected, types = [], {}, {}
             voff = coff = 0
             total_v, total_c = sum(case["nv"]), sum(n - 1 for n in case["nv"])
             for k, (spec, nv) in enumerate(zip(case["inputs"], case["nv"])):
                 v = np.c_[np.arange(nv, dtype=float) + 10 * k, np.zeros(nv), np.zeros(nv)]
                 obj = Curve.create(ws, vertices=v, name=f"in{k}")
-                for name, assoc in spec:
+                for name, assoc, *share in spec:
                     n = nv if assoc == "VERTEX" else nv - 1
                     vals = np.arange(n, dtype=float) + 100 * k + (50 if name == "b" else 0) + 1
-                    obj.add_data({name: {"values": vals, "association": assoc}})
+                    extra = {"entity_type": types[share[0]]} if share and share[0] in types else ({"entity_type": types[name]} if name in types else {})
+                    etype = obj.add_data({name: {"values": vals, "association": assoc, **extra}}).entity_type
+                    types.setdefault(name, etype)
                     tot, off = (total_v, voff) if assoc == "VERTEX" else (total_c, coff)
-                    arr = expected.setdefault((name, assoc), np.full(tot, np.nan))
+                    arr = expected.setdefault((name, etype.name, assoc), np.full(tot, np.nan))
                     arr[off:off + n] = vals
                 objs.append(obj)
                 voff += nv
@@ -406,7 +424,9 @@ class MergeData(Contract):
             got = {}
             for ch in merged.children:
                 if hasattr(ch, "association") and getattr(ch, "values", None) is not None:
-                    got[(ch.name, ch.association.name)] = np.asarray(ch.values, dtype=float)
+                    if (ch.name, ch.entity_type.name, ch.association.name) in got:
+                        return f"two merged data share name, type and association {(ch.name, ch.entity_type.name, ch.association.name)} ({case})"
+                    got[(ch.name, ch.entity_type.name, ch.association.name)] = np.asarray(ch.values, dtype=float)
             for key, exp in expected.items():
                 if key not in got:
                     return f"merged object lacks data {key} ({case})"
@@ -421,4 +441,90 @@ class MergeData(Contract):
         return None
 
 
-CONTRACTS = [PointsCreate, CellCreate, KnownTrailing, MergeData]
+class DrapeMerge(Contract):
+    """Bounded stand-in for DrapeModelMerger (in-place numpy table arithmetic with ghost rows; the
+    prism/layer cross-indexing is outside the engine): every input cell keeps its coordinates
+    (x, y of its prism, top and bottom elevation) and its values at the running offset (two ghost
+    cells between consecutive inputs), the merged prism/layer tables index each other
+    consistently, and the inputs are left unchanged."""
+    target = "geoh5py/shared/merging/drape_model.py::DrapeModelMerger.create_object"
+    variant = "native-oracle"
+    symbolic = False
+    has_native = True
+    props = ("C16",)
+    bounded_scope = "2-4 drape models with 2-3 prisms of 1-3 layers each (quick: 2 and 3 inputs over 6 layer-count patterns = 252 cases; thorough adds 4 inputs)"
+
+    PATTERNS = [[1, 1], [1, 2], [2, 1], [3, 1], [2, 2, 1], [1, 3, 2]]
+
+    def native_cases(self, tier, rng):
+        for k in (2, 3) if tier == "quick" else (2, 3, 4):
+            for combo in itertools.product(range(len(self.PATTERNS)), repeat=k):
+                if k == 4 and sum(combo) % 5:
+                    continue
+                yield {"counts": [self.PATTERNS[i] for i in combo]}
+
+    @staticmethod
+    def _make(ws, name, x0, counts, v0):
+        from geoh5py.objects import DrapeModel
+
+        counts = np.asarray(counts)
+        n = len(counts)
+        starts = np.r_[0, np.cumsum(counts)[:-1]]
+        top = 10 + 0.5 * np.arange(n)
+        prisms = np.c_[x0 + np.arange(n, dtype=float), 5.0 + 0.1 * np.arange(n), top, starts, counts].astype(float)
+        layers = np.array([[p, k, top[p] - (k + 1) * (1 + 0.25 * p)] for p in range(n) for k in range(counts[p])], dtype=float)
+        d = DrapeModel.create(ws, name=name, layers=layers, prisms=prisms)
+        d.add_data({"v": {"values": v0 + np.arange(len(layers), dtype=float)}})
+        return d
+
+    @staticmethod
+    def _geom(prisms, layers):
+        """per cell (x, y, top, bottom) as the format defines it; a string when the tables disagree"""
+        prisms, layers = np.asarray(prisms, float), np.asarray(layers, float)
+        out = []
+        for r, (pi, _, bot) in enumerate(layers.tolist()):
+            if not 0 <= int(pi) < len(prisms):
+                return f"layer row {r} names prism {int(pi)} of {len(prisms)}"
+            pr = prisms[int(pi)]
+            first = int(pr[3])
+            if not first <= r < first + int(pr[4]):
+                return f"layer row {r} names prism {int(pi)} whose layers are rows {first}..{first + int(pr[4]) - 1}"
+            out.append((pr[0], pr[1], pr[2] if r == first else layers[r - 1, 2], bot))
+        return np.array(out)
+
+    def native_check(self, case):
+        from geoh5py.shared.merging import DrapeModelMerger
+        from geoh5py.workspace import Workspace
+
+        with Workspace() as ws:
+            ins = [self._make(ws, f"d{i}", 10.0 * i, c, 100.0 * i) for i, c in enumerate(case["counts"])]
+            snap = [(np.array(o.prisms, float).copy(), np.array(o.layers, float).copy(), np.array(o.get_data("v")[0].values, float).copy()) for o in ins]
+            gs = [self._geom(p, l) for p, l, _ in snap]
+            m = DrapeModelMerger.merge_objects(ws, ins)
+            mg = self._geom(m.prisms, m.layers)
+            if isinstance(mg, str):
+                return f"merged prism/layer tables disagree: {mg} ({case})"
+            mv = np.asarray(m.get_data("v")[0].values, float)
+            if len(mv) != len(mg):
+                return f"{len(mv)} values for {len(mg)} merged cells ({case})"
+            off = 0
+            for k, (g, (p, l, v)) in enumerate(zip(gs, snap)):
+                n = len(g)
+                if off + n > len(mg):
+                    return f"merged model has {len(mg)} cells, input {k} needs rows {off}..{off + n - 1} ({case})"
+                if not np.allclose(mg[off:off + n], g):
+                    return f"cells of input {k} do not keep their coordinates ({case})"
+                if not np.allclose(mv[off:off + n], v):
+                    return f"values of input {k}: {mv[off:off + n].tolist()} expected {v.tolist()} ({case})"
+                if k < len(gs) - 1 and not np.all(np.isnan(mv[off + n:off + n + 2])):
+                    return f"ghost cells after input {k} carry values {mv[off + n:off + n + 2].tolist()} ({case})"
+                off += n + 2
+            if off - 2 != len(mg):
+                return f"merged model has {len(mg)} cells, expected {off - 2} (inputs + 2 ghosts between consecutive inputs) ({case})"
+            for k, (o, (p, l, v)) in enumerate(zip(ins, snap)):
+                if not np.array_equal(np.array(o.prisms, float), p) or not np.array_equal(np.array(o.layers, float), l) or not np.array_equal(np.array(o.get_data("v")[0].values, float), v):
+                    return f"input {k} was modified by the merge ({case})"
+        return None
+
+
+CONTRACTS = [PointsCreate, CellCreate, KnownTrailing, MergeData, DrapeMerge]
